@@ -62,6 +62,35 @@ def possibly_unbound(cfg: CFG, fn: ast.AST, params):
 
     IN, _ = solve(cfg, init, transfer, lambda n, l, s: s, join)
     out = []
+
+    def feasible_unassigned_path(target: Node, name: str) -> bool:
+        """Is there a path from the entry to `target` that assigns `name` nowhere, taking into account flags that hold a
+        boolean constant on the path (`found = False ... if found:` cannot take the true branch)?"""
+        seen = set()
+        stack = [(cfg.entry, frozenset())]
+        while stack:
+            nid, fl = stack.pop()
+            if (nid, fl) in seen:
+                continue
+            seen.add((nid, fl))
+            n = cfg.nodes[nid]
+            if nid == target.id:
+                return True
+            st = node_stores(n)
+            if name in st:
+                continue
+            a = n.ast
+            if st:
+                fl = frozenset((k, v) for (k, v) in fl if k not in st)
+                if n.kind == "stmt" and isinstance(a, ast.Assign) and len(a.targets) == 1 and isinstance(a.targets[0], ast.Name) \
+                        and isinstance(a.value, ast.Constant) and isinstance(a.value.value, bool):
+                    fl = fl | {(a.targets[0].id, a.value.value)}
+            known = dict(fl)
+            for (d, lab) in cfg.succ[nid]:
+                if n.kind == "cond" and isinstance(a, ast.Name) and a.id in known and lab in ("T", "F") and (lab == "T") != known[a.id]:
+                    continue
+                stack.append((d, fl))
+        return False
     for node in cfg.nodes:
         if node.id not in IN:
             continue
@@ -75,7 +104,7 @@ def possibly_unbound(cfg: CFG, fn: ast.AST, params):
                     comp_bound |= {a.arg for a in sub.args.args}
             for n in ast.walk(e):
                 if isinstance(n, ast.Name) and isinstance(n.ctx, ast.Load) and n.id in local and n.id not in have and n.id not in comp_bound:
-                    if isinstance(node.ast, ast.AugAssign) and False:
-                        continue
+                    if not feasible_unassigned_path(node, n.id):
+                        continue        # the only unassigned paths contradict a boolean flag set on them
                     out.append((node, n.id))
     return out
